@@ -733,8 +733,7 @@ edit("zk-tls-no-tls-section", "start-time", False, ["notify"],
 
 # integer options that size something (channels, slices, goroutine counts, ticker periods, time.Duration products): -1, 0, 1, large
 # inv: a non-positive SIZE is a violation of the documented meaning of the option (a number of workers, a period in seconds);
-# where Burrow does not check the value the edit is marked "hazard": accepted today (asserted, so that a change is seen),
-# listed as an observation in findings/C19.json when the accepted value crashes the process after start-up.
+# (round 4: every such size is now checked in Configure — fixes 746d605, 4350030, c110ef6, 38fa1ff; no "hazard" edit is left).
 _ST = [("s", "storage.s1.class-name", "inmemory")]
 _ALL = ["core", "notify", "kafka"]
 for _v, _inv, _what in ((-1, True, "negative"), (0, True, "zero"), (1, False, "one"), (500, False, "large")):
@@ -746,13 +745,10 @@ for _v, _what in ((0, "zero"), (1, "one"), (10000, "large")):
 edit("storage-workers-one-queue-depth-negative", "size", True, _ALL,
      _ST + [("i", "storage.s1.workers", 1), ("i", "storage.s1.queue-depth", -5)],
      "core/internal/storage/inmemory.go:138", "one worker and a negative queue-depth")
-for _v, _what in ((-1, "negative"), (0, "zero")):
-    edit("storage-intervals-%s" % _what, "hazard", False, _ALL, _ST + [("i", "storage.s1.intervals", _v)],
-         "core/internal/storage/inmemory.go:127,293,364", "storage intervals = %d: accepted by Configure and Start (ring.New(n <= 0) is nil: "
-         "the first offset commit panics a worker goroutine after start-up)" % _v)
-for _v, _what in ((1, "one"), (100000, "large")):
-    edit("storage-intervals-%s" % _what, "preserving", False, _ALL, _ST + [("i", "storage.s1.intervals", _v)],
-         "core/internal/storage/inmemory.go:127", "storage intervals = %d" % _v)
+for _v, _inv, _what in ((-1, True, "negative"), (0, True, "zero"), (1, False, "one"), (100000, False, "large")):
+    edit("storage-intervals-%s" % _what, "size" if _inv else "preserving", _inv, _ALL, _ST + [("i", "storage.s1.intervals", _v)],
+         "core/internal/storage/inmemory.go:127,137-140", "storage intervals = %d (the size of every partition's offset ring; below 1 the first "
+         "stored offset crashed a worker goroutine before c110ef6)" % _v)
 edit("storage-expire-group-negative", "preserving", False, _ALL, _ST + [("i", "storage.s1.expire-group", -1), ("i", "storage.s1.min-distance", -1)],
      "core/internal/storage/inmemory.go:128,130", "negative expire-group and min-distance: arithmetic only")
 for _v, _what in ((0, "zero"), (1, "one"), (1000000000, "large")):
@@ -761,13 +757,13 @@ for _v, _what in ((0, "zero"), (1, "one"), (1000000000, "large")):
 for _v, _what in ((-1, "negative"), (0, "zero"), (1, "one"), (1000000000, "large")):
     edit("http-timeout-%s" % _what, "preserving", False, _ALL, [("s", "httpserver.h1.address", "127.0.0.1:0"), ("i", "httpserver.h1.timeout", _v)],
          "core/internal/httpserver/coordinator.go:83-88", "listener timeout = %d (a time.Duration product; non-positive = no timeout in net/http)" % _v)
-for _v, _what in ((-1, "negative"), (0, "zero")):
-    edit("notifier-interval-%s" % _what, "hazard", False, ["notify"], [("i", "notifier.n3.interval", _v)],
-         "core/internal/notifier/coordinator.go:174,233-236,526", "notifier interval = %d: accepted by Configure and Start (rand.Int63n(minInterval*1000) "
-         "panics in processConsumerList on the first group refresh, 60 s after start-up)" % _v)
-for _v, _what in ((1, "one"), (1000000000, "large")):
-    edit("notifier-interval-%s" % _what, "preserving", False, ["notify"], [("i", "notifier.n3.interval", _v)],
-         "core/internal/notifier/coordinator.go:174,233-236", "notifier interval = %d" % _v)
+for _v, _inv, _what in ((-1, True, "negative"), (0, True, "zero"), (1, False, "one"), (1000000000, False, "large"),
+                        (9223372036, False, "max"), (9223372037, True, "above-max"), (9223372036854776, True, "huge")):
+    edit("notifier-interval-%s" % _what, "size" if _inv else "preserving", _inv, ["notify"], [("i", "notifier.n3.interval", _v)],
+         "core/internal/notifier/coordinator.go:174,181-188", "notifier interval = %d seconds (must be at least 1 and fit a time.Duration; outside that "
+         "range the first group refresh panicked in rand.Int63n, or the pacing wrapped, before 38fa1ff)" % _v)
+edit("notifier-email-interval-zero", "size", True, ["notify"], [("i", "notifier.n2.interval", 0)],
+     "core/internal/notifier/coordinator.go:181-188", "email notifier interval = 0")
 edit("notifier-int-options-negative", "preserving", False, ["notify"],
      [("i", "notifier.n1.threshold", -1), ("i", "notifier.n1.send-interval", -1), ("i", "notifier.n1.timeout", -1), ("i", "notifier.n1.keepalive", -1)],
      "core/internal/notifier/coordinator.go:175-176,560,571; core/internal/notifier/http.go:88-96",
